@@ -66,6 +66,7 @@ type c20Val struct {
 	bval  bool               // const: its value
 	flds  map[string]*c20Val // lit: the fields set by the literal, by dotted field path
 	zero  bool               // const: the zero value of a field a literal did not set
+	flt   bool               // bin, min, max: a floating-point operation (c20eval.go evaluates integer terms only)
 }
 
 func (v *c20Val) String() string {
@@ -424,16 +425,20 @@ func (x *c20Exec) eval(st *c20State, e ast.Expr) *c20Val {
 				k = "lor"
 			}
 			return x.newVal(st, &c20Val{kind: k, args: []*c20Val{a, b}, disp: types.ExprString(e)})
-		case token.ADD, token.SUB, token.MUL, token.QUO, token.REM, token.SHL, token.SHR, token.AND, token.OR, token.XOR:
+		case token.ADD, token.SUB, token.MUL, token.QUO, token.REM, token.SHL, token.SHR, token.AND, token.OR, token.XOR, token.AND_NOT:
 			a, b := x.eval(st, t.X), x.eval(st, t.Y)
 			if t.Op == token.SUB && a.kind == "extmax" && b.kind == "extmin" && a.img == b.img && a.axis == b.axis {
 				return x.extent(st, "ext", a.axis, a.img, types.ExprString(e))
 			}
 			ck := fmt.Sprintf("bin:%d:%d:%d", t.Op, a.id, b.id)
+			flt := c20IsFloat(x.info.TypeOf(e))
+			if flt {
+				ck += ":f" // conversions are transparent: float64(a)/float64(b) is not a/b
+			}
 			if v, ok := st.memo[ck]; ok {
 				return v // same operation on the same values: same value
 			}
-			v := x.newVal(st, &c20Val{kind: "bin", op: t.Op, args: []*c20Val{a, b}, disp: types.ExprString(e)})
+			v := x.newVal(st, &c20Val{kind: "bin", op: t.Op, args: []*c20Val{a, b}, disp: types.ExprString(e), flt: flt})
 			st.memo[ck] = v
 			return v
 		}
@@ -505,7 +510,7 @@ func (x *c20Exec) evalCall(st *c20State, call *ast.CallExpr) *c20Val {
 			}
 			switch b.Name() {
 			case "min", "max", "len", "append", "make":
-				return x.newVal(st, &c20Val{kind: b.Name(), args: args, disp: disp})
+				return x.newVal(st, &c20Val{kind: b.Name(), args: args, disp: disp, flt: c20IsFloat(x.info.TypeOf(call))})
 			}
 			return x.newVal(st, &c20Val{kind: "opaque", args: args, disp: disp})
 		}
@@ -542,7 +547,7 @@ func (x *c20Exec) evalCall(st *c20State, call *ast.CallExpr) *c20Val {
 		args = append(args, x.eval(st, a))
 	}
 	if fn != nil && (fullName(fn) == "math.Min" || fullName(fn) == "math.Max") && len(args) == 2 {
-		return x.newVal(st, &c20Val{kind: strings.ToLower(fn.Name()), args: args, disp: disp})
+		return x.newVal(st, &c20Val{kind: strings.ToLower(fn.Name()), args: args, disp: disp, flt: true})
 	}
 	v := &c20Val{kind: "call", fn: fn, args: args, disp: disp, deps: map[string]bool{}}
 	x.newVal(st, v)
@@ -582,7 +587,7 @@ func (x *c20Exec) incr(st *c20State, old *c20Val, by int, disp string) *c20Val {
 
 var c20CompoundOp = map[token.Token]token.Token{token.ADD_ASSIGN: token.ADD, token.SUB_ASSIGN: token.SUB, token.MUL_ASSIGN: token.MUL,
 	token.QUO_ASSIGN: token.QUO, token.REM_ASSIGN: token.REM, token.SHL_ASSIGN: token.SHL, token.SHR_ASSIGN: token.SHR,
-	token.AND_ASSIGN: token.AND, token.OR_ASSIGN: token.OR, token.XOR_ASSIGN: token.XOR}
+	token.AND_ASSIGN: token.AND, token.OR_ASSIGN: token.OR, token.XOR_ASSIGN: token.XOR, token.AND_NOT_ASSIGN: token.AND_NOT}
 
 func (x *c20Exec) step(st *c20State, n ast.Node) {
 	switch s := n.(type) {
@@ -628,7 +633,7 @@ func (x *c20Exec) step(st *c20State, n ast.Node) {
 				x.bind(st, s.Lhs[0], x.incr(st, old, 1, disp))
 				return
 			}
-			x.bind(st, s.Lhs[0], x.newVal(st, &c20Val{kind: "bin", op: op, args: []*c20Val{old, rv}, disp: disp}))
+			x.bind(st, s.Lhs[0], x.newVal(st, &c20Val{kind: "bin", op: op, args: []*c20Val{old, rv}, disp: disp, flt: c20IsFloat(x.info.TypeOf(s.Lhs[0]))}))
 		}
 	case *ast.IncDecStmt:
 		old := x.eval(st, s.X)
@@ -636,7 +641,7 @@ func (x *c20Exec) step(st *c20State, n ast.Node) {
 			x.bind(st, s.X, x.incr(st, old, 1, types.ExprString(s.X)+"++"))
 		} else {
 			one := x.constVal(st, types.TypeAndValue{Type: types.Typ[types.Int], Value: constant.MakeInt64(1)}, "1")
-			x.bind(st, s.X, x.newVal(st, &c20Val{kind: "bin", op: token.SUB, args: []*c20Val{old, one}, disp: types.ExprString(s.X) + "--"}))
+			x.bind(st, s.X, x.newVal(st, &c20Val{kind: "bin", op: token.SUB, args: []*c20Val{old, one}, disp: types.ExprString(s.X) + "--", flt: c20IsFloat(x.info.TypeOf(s.X))}))
 		}
 	case *ast.DeclStmt:
 		if gd, ok := s.Decl.(*ast.GenDecl); ok && gd.Tok == token.VAR {
@@ -1077,7 +1082,7 @@ func runC20(c *Ctx) {
 		"C20.d render: every last placement is deleted on refresh, deleted unless matched otherwise; the last list is emptied on refresh before the new-placement loop; every new placement not matched in the last list is positioned and written; deletes precede writes; last := next afterwards",
 		"C20.e the alpha threshold of every block renderer is the constant transparentEnough (interval of the alpha value on each arm)",
 		"C20.f resizeImage returns the source unchanged only if it fits, and scales only if it does not fit",
-		"C20.g cell counts round up: columns/lines in resizeImage, CellSize of all four image kinds = ceil(pixel extent / cell pixel extent), with the cell geometry that was passed to resizeImage and the box passed through unchanged",
+		"C20.g cell counts round up: columns/lines in resizeImage, CellSize of all four image kinds = ceil(pixel extent / cell pixel extent) of the image resizeImage returned (not of a padded or rounded-up quantity), with the cell geometry that was passed to resizeImage and the box passed through unchanged",
 		"C20.h pixel extents of the source are extents (Dx/Dy or Max-Min), not Max coordinates",
 		"C20.i block images: cell i reads pixels (i mod W, 2*(i div W)) and the one below from the resized image; Draw puts cell i at (i mod W, i div W); each half of a half-block cell shows its own pixel's colour if opaque and the default colour if transparent; a cell that a path through the loop does not store must be the zero value of a slice made in the same Resize",
 		"C20.j colour plumbing: toRGB and averageColor keep channels apart and in order; averageColor averages all its inputs",
@@ -1764,6 +1769,31 @@ func c20ResizeMethod(c *Ctx, k *c20Kind) {
 			}
 			cc := c20CellCount(st, fv)
 			den := a[3+i]
+			if !cc.ok {
+				// not one of the idioms: a term over the extent, the cell extent and constants is decided by
+				// evaluating it on the path (c20eval.go)
+				if vd := c20EvalCellCount(st, fv, den); vd.decided {
+					cc = vd.cells
+					if cc.status == 3 {
+						fv := &c20Val{disp: fv.disp}
+						if b := st.env[fmt.Sprintf("%p.%s", recv, k.sizeF[i].Name())]; b.kind == "inc" && b.base != nil {
+							fv.disp = fmt.Sprintf("%s + %d", b.base.disp, b.inc) // (the text of an increment is the statement)
+						}
+						unit := map[string]string{"w": "column", "h": "row"}[ax]
+						switch {
+						case vd.got > vd.want && vd.padded != "":
+							cc.why = fmt.Sprintf("%s.%s = %s is the cell count of a rounded-up pixel %s (%s), not of the image resizeImage fitted into the box: a cell of %d pixels and an image of %d pixels give %d %ss where the image occupies %d - an image that fills its box reports a CellSize larger than the box",
+								recv.Name(), k.sizeF[i].Name(), fv.disp, c20AxisName[ax], vd.padded, vd.d, vd.e, vd.got, unit, vd.want)
+						case vd.got > vd.want:
+							cc.why = fmt.Sprintf("%s.%s = %s exceeds ceil(pixel %s / cell pixel %s): a cell of %d pixels and an image of %d pixels give %d %ss where the image occupies %d - an image that fills its box reports a CellSize larger than the box",
+								recv.Name(), k.sizeF[i].Name(), fv.disp, c20AxisName[ax], c20AxisName[ax], vd.d, vd.e, vd.got, unit, vd.want)
+						default:
+							cc.why = fmt.Sprintf("%s.%s = %s rounds down: a cell of %d pixels and an image of %d pixels give %d %s(s) where the image occupies %d",
+								recv.Name(), k.sizeF[i].Name(), fv.disp, vd.d, vd.e, vd.got, unit, vd.want)
+						}
+					}
+				}
+			}
 			switch {
 			case !cc.ok:
 				agg.und("C20.g", key, pos, "%s.%s = %s is not a cell count of an image extent", recv.Name(), k.sizeF[i].Name(), fv.disp)
